@@ -332,7 +332,7 @@ type RU<'a> = Recursive<chumsky::recursive::Indirect<'a, 'a, In<'a>, u8, Er<'a>>
 
 fn define_kind<'a>(r: &mut RU<'a>, kind: u8, second: bool) {
     // (the second definition is always a different parser, often of the same type as the first)
-    let me = r.clone();
+    // (no clone of the handle is alive during a define unless the definition itself owns one)
     match (kind, second) {
         (0, false) => r.define(any().filter(|c: &u8| c.is_ascii_digit())),
         (0, true) => r.define(any().filter(|c: &u8| c.is_ascii_alphabetic())),
@@ -344,8 +344,14 @@ fn define_kind<'a>(r: &mut RU<'a>, kind: u8, second: bool) {
         (3, true) => r.define(just(b'a')),
         (4, false) => r.define(just(b'7').boxed()),
         (4, true) => r.define(any().boxed()),
-        (5, false) => r.define(just(b'(').ignore_then(me).then_ignore(just(b')')).or(just(b'7'))),
-        (5, true) => r.define(just(b'[').ignore_then(me).then_ignore(just(b']')).or(just(b'a'))),
+        (5, false) => {
+            let me = r.clone();
+            r.define(just(b'(').ignore_then(me).then_ignore(just(b')')).or(just(b'7')))
+        }
+        (5, true) => {
+            let me = r.clone();
+            r.define(just(b'[').ignore_then(me).then_ignore(just(b']')).or(just(b'a')))
+        }
         (_, false) => r.define(empty().to(b'e')),
         (_, true) => r.define(any()),
     }
